@@ -44,6 +44,11 @@ class Sizing(Stream):
             'over the distinct catalogue values (the grid of the property quantifier) + randoms; non-trivial = all')
 
     def table(self):
+        """the truth for the oracle: the resource file itself, read here (not through the implementation)"""
+        d = repo_json('fim/slivers/data/instance_sizes.json')
+        return [(k, (v['core'], v['ram'], v['disk'])) for k, v in d.items()]
+
+    def runtime_table(self):
         from fim.slivers.instance_catalog import InstanceCatalog
         li = InstanceCatalog().list_instances()
         return [(k, (v.core, v.ram, v.disk)) for k, v in li.items()]
@@ -79,7 +84,7 @@ class Sizing(Stream):
             caps = None if c is None else [c.core, c.ram, c.disk]
             extra = None if c is None else [v for f, v in c.__dict__.items() if f not in ('core', 'ram', 'disk')]
             return {'name': name, 'caps': caps, 'other_fields': extra,
-                    'request_after': [cap.core, cap.ram, cap.disk]}
+                    'request_after': [cap.core, cap.ram, cap.disk], 'listed': stable_hash(self.runtime_table())}
         except Exception as e:
             return {'err': type(e).__name__}
 
@@ -90,13 +95,15 @@ class Sizing(Stream):
     _tab = None
 
     def oracle(self, case, o):
-        """brute-force Pareto oracle over the implementation's own list_instances()"""
+        """brute-force Pareto oracle over the sizes of instance_sizes.json (read by the harness itself)"""
         if 'err' in o:
             return 'map_capacities_to_instance raised ' + o['err']
         if self._tab is None:
             self._tab = self.table()
         tab = self._tab
         names = [k for k, _ in tab]
+        if o['listed'] != stable_hash(tab):
+            return 'list_instances() differs from instance_sizes.json'
         if o['name'] not in names:
             return 'returned name %r is not a catalogue size' % (o['name'],)
         if o['caps'] is None:
@@ -105,7 +112,7 @@ class Sizing(Stream):
         if o['name'] != 'fabric.c%d.m%d.d%d' % got:
             return 'name %s and capacities %r disagree' % (o['name'], got)
         if dict(tab)[o['name']] != got or any(o['other_fields']):
-            return 'capacities of %s differ from list_instances()' % o['name']
+            return 'capacities of %s differ from instance_sizes.json' % o['name']
         if o['request_after'] != list(case):
             return 'the request was modified'
         fit = [v for _, v in tab if all(v[i] >= case[i] for i in range(3))]
@@ -615,7 +622,7 @@ class C18(Check):
         try:
             import gen_catalog
             inst = gen_catalog.read_instances(common.REPO)
-            tab = Sizing().table()
+            tab = Sizing().runtime_table()
             ok = [(n, (c, r, d)) for n, c, r, d in inst] == tab
             out.append({'name': 'list_instances() equals the regenerated inst_sizes table (order, names, capacities)',
                         'ok': bool(ok), 'detail': '%d sizes' % len(tab)})
